@@ -39,11 +39,11 @@ func run(e *harness.Env) {
 		L = 4
 	}
 	e.Rule = fmt.Sprintf("full product per sub-space (no sampling). Texts = every sequence of 0..n segments over {ASCII word, 120-byte token, CJK run, spaced CJK words, emoji, base+2 combining marks, "+
-		"sentences of 60/150/200/250 bytes ending in '. ', '? ', newline, blank line, NBSP, NEL, dotted abbreviation, decimal number} with one repetition factor r in {1,8,40} for the repeatable segments. "+
+		"sentences of 60/150/200/250 bytes ending in '. ', two multi-byte-script sentences (Greek/Cyrillic/accented Latin/CJK) ending in '. ', '? ', newline, blank line, NBSP, NEL, dotted abbreviation, decimal number} with one repetition factor r in {1,8,40} for the repeatable segments. "+
 		"split (n<=%d%s): texts x unit{characters,tokens,words,sentences,paragraphs} x limit{1,2,5,50,200,800} (sentences/paragraphs only 1,2,5 and words up to 200: larger ones cannot engage on texts of this size) x TokensPerChar{0.25,1,0 (token unit only)}; "+
 		"point (n<=%d): FindSplitPointAt and FindSplitPoint on the same grid; bnd: sequences of <=%d paragraph blocks out of 10 with BoundaryDetector boundaries x SplitAtSemanticBoundaries x the grid; "+
-		"ovl (n<=%d): texts x strategy{none,character,sentence,paragraph} x size{1,2,10,100} x PreserveWords x MaxOverlap{0,50,300} x MinOverlap{0,20}; "+
-		"apply: sequences of 2..%d position-marked chunk texts out of 8 kinds x the overlap grid x IncludeHeadingContext; "+
+		"ovl (n<=%d): texts x strategy{none,character,sentence,paragraph} x size{1,2,10,100} x PreserveWords x MaxOverlap{0,50,300,500} x MinOverlap{0,20}; "+
+		"apply: sequences of 2..%d position-marked chunk texts out of 10 kinds (two of them multi-byte-script sentences) x the overlap grid x IncludeHeadingContext; "+
 		"chunker (n<=%d): one-page documents {paragraph, intro+paragraph, H1+paragraph} x MaxChunkSize{1,2,5,50,200,800} x OverlapSize{0,1,2,10,100} x OverlapSentences, Chunk and ChunkWithOverlapEnabled; "+
 		"docchunk (n<=%d): ChunkDocumentWithConfig on {paragraph, intro+paragraph} x the size grid. "+
 		"A case is distinct by its descriptor; non-trivial = the input had to be split or an overlap was produced (a clause beyond termination was exercised)",
@@ -432,7 +432,7 @@ func overlapGrid() []ovlCfg {
 	for _, st := range strategies {
 		for _, size := range []int{1, 2, 10, 100} {
 			for _, pw := range []int{1, 0} {
-				for _, mx := range []int{0, 50, 300} {
+				for _, mx := range []int{0, 50, 300, 500} {
 					for _, mn := range []int{0, 20} {
 						if st.s == rag.OverlapNone && (size != 1 || pw != 1 || mx != 0 || mn != 0) {
 							continue
@@ -538,6 +538,13 @@ var chunkKinds = []struct {
 	{"paras", func(i int) string { return fmt.Sprintf("Para%d one is here.\n\nPara%d two is there.", i, i) }},
 	{"emoji", func(i int) string { return fmt.Sprintf("\U0001F600%d e\u0323\u0301 \U0001F600\U0001F600 %d\U0001F600", i, i) }},
 	{"tiny", func(i int) string { return fmt.Sprintf("x%d", i) }},
+	// multi-byte scripts mixed with ASCII sentence punctuation (2 and 3 sentences, each starting with a capital)
+	{"mbsent2", func(i int) string {
+		return fmt.Sprintf("\u041f\u0440\u0438\u0432\u0435\u0442 \u043c\u0438\u0440%d, \u044d\u0442\u043e \u043f\u0435\u0440\u0432\u043e\u0435. \u0395\u03bb\u03bb\u03b7\u03bd\u03b9\u03ba\u03ac%d \u65e5\u672c\u8a9e caf\u00e9 here.", i, i)
+	}},
+	{"mbsent3", func(i int) string {
+		return fmt.Sprintf("\u00c9t\u00e9%d \u5b66\u6821 one. \u00dcber%d na\u00efve \u0442\u0435\u043a\u0441\u0442 two. \u0391\u03b8\u03ae\u03bd\u03b1%d \u65e5\u672c three ends here.", i, i, i)
+	}},
 }
 
 func applySpace(e *harness.Env) {
